@@ -109,6 +109,16 @@ def delAt (fu : Nat) (k : Bytes) (b : Bk) : Option Bk := (delT fu b.tree k).map 
 /-- `SetSequence` / `NextSequence`: the root node is materialised so that the bucket is written -/
 def setSeqAt (s : Nat) (b : Bk) : Option Bk := some ((b.setTree (materialize b.tree)).setSeq s)
 
+/-- `NextSequence`: like `SetSequence` with the incremented counter -/
+def nextSeqAt (b : Bk) : Option Bk := setSeqAt ((b.seq + 1) % 2^64) b   -- `uint64` counter
+
+/-- `Bucket.Get(k)`: `none` for a missing key and for a nested bucket; sees the transaction's own
+    uncommitted writes (materialised nodes) -/
+def getAt (fu : Nat) (k : Bytes) (b : Bk) : Option Bytes :=
+  match seekItem k fu b.tree with
+  | some it => if it.key = k ∧ it.flags % 2 = 0 then some it.val else none
+  | none => none
+
 /-! ### commit -/
 
 /-- `Bucket.rebalance()`: own nodes (in map order `order`), then every opened sub-bucket -/
